@@ -1,5 +1,5 @@
 # Single source of truth for MANIFEST.json (bin/mkmanifest regenerates it).
-HOOK_COMMITS = ['ba9d497']
+HOOK_COMMITS = ['ba9d497', '86002f7']
 NOTES = 'see DESIGN.md §9 (as built)'
 NOT_APPLICABLE = {}
 CLAIMS = {}
@@ -50,4 +50,53 @@ CLAIMS['C19'] = dict(
     ref='DESIGN.md §4 C19',
     note='exhaustive for small domains; environment parsing is modelled over symbol classes; the NaN-in-FLOAT64SLICE identity defect (same root cause as C05) is listed in known_findings/C19.json',
     technique='TLA+ reference model with the laws as TLC invariants; TLC edge replay on sdk/resource + TLC trace validation',
+)
+
+CLAIMS['C03'] = dict(
+    text='W3CTraceContext.tla/TraceState.tla/TraceContext.tla: the traceparent/tracestate grammar over symbol classes and the tracestate edit state machine (insert = move-to-front, evict right-most, delete), transcribed from the W3C text; TLC enumerates every abstract header up to a bound, every edit sequence, and proves the round-trip theorems (MC_W3CTheorems). Every enumerated header/edit edge is concretized (several byte representatives per class, boundary lengths) and executed on the real ParseTraceState / TraceContext propagator / TraceState edit API; accept/reject, members, re-injected headers and copy-on-write are compared with the spec; seeded random byte strings and edit sequences at the real cap (32) are abstracted by a lexer and validated by TLC (Trace_TraceContext.tla).',
+    ref='DESIGN.md §4 C03',
+    note='grammar over symbol classes with a concretization table reviewed against the W3C grammar; exhaustive for short headers only; the multi-byte-rune key defect was repaired in /repo (668ba81) and is re-detected if the repair is reverted',
+    technique='TLA+ grammar + edit state machine, TLC enumeration with edge replay on the real parser/propagator + TLC trace validation',
+)
+CLAIMS['C08'] = dict(
+    text='Temporality.tla over TemporalityModel.tla: one instrument of each of the 7 kinds x applicable aggregations observed by a delta and a cumulative reader over a logical clock; TLC explores every short history (records, callback tables, collection points) for 25 (quick) / 54 (thorough) configurations; every Collect edge is replayed on a real MeterProvider with a delta and a cumulative ManualReader collecting back to back and each reported point is validated by TLC (Trace_Temporality.tla: cumulative = running delta, adjacency via structural timestamp relations, async set equality, gauge last value); seeded random long multi-instrument histories are validated the same way.',
+    ref='DESIGN.md §4 C08',
+    note='timestamps are compared structurally only (equality with the reader\'s previous time, fixed start, <=), never against wall clock; tolerant where the statement is silent (cumulative gauge without recording, all-zero delta points); one defect repaired in /repo (f2dc3c2), one listed in known_findings/C08.json',
+    technique='TLA+ per-aggregator temporality model, TLC edge replay through the public metrics API + TLC trace validation',
+)
+CLAIMS['C10'] = dict(
+    text='SpanEnd.tla models recordingSpan.End lock-step by lock-step (check, task-end window or mark-first shape, mark, snapshot, fan-out), mutators, child starters, readers and a registrar, with the contract as monitor variables; TLC exhaustive for a family of configurations (deadlock freedom, exactly-once OnEnd per processor, single end time, snapshot atomicity, liveness); every gate-level interleaving of two enders (and, thorough, enders + mutator/registrar) is generated by TLC (-simulate over SpanEndSim.tla) and replayed deterministically on real spans through the verif hook gates with runtime/trace on and off; every real execution (replayed, directed, seeded random with perturbation) is validated by TLC against the total contract monitor SpanEndContract.tla.',
+    ref='DESIGN.md §4 C10, App. A.2',
+    note='the calling goroutine is identified by goroutine id in the harness only; data-race freedom is an auxiliary -race rerun in the thorough tier, not model checking; the double-delivery defect was repaired in /repo (0a6ac4a); without the verif hooks the check degrades to exit 2',
+    technique='TLA+ implementation-shaped spec + TLC exhaustive; gate replay of all TLC interleavings through hooks; TLC trace validation against a contract monitor',
+)
+CLAIMS['C11'] = dict(
+    text='BaggageCodec.tla (escape/unescape, serialise, parse over character classes with abstract byte lengths), BaggageRT.tla (grammar-directed enumeration of headers and constructor inputs with scaled limits and boundary families at the real limits) and BaggageStore.tla/BaggageEdit.tla (handles, contexts, returned slices; immutability as an action property) are explored by TLC; every codec edge is concretized and executed on baggage.New/NewMember(Raw)/Parse/String and the propagator, every store edge re-reads all live handles, contexts and previously returned slices after each step; seeded random members, raw byte headers and the 179/180/181, 4095/6/7, 8191/2/3 families are validated by TLC at the real constants (Trace_Baggage.tla).',
+    ref='DESIGN.md §4 C11',
+    note='character classes with a concretization table; byte identity within one class is covered only by real-vs-real round-trip comparison; three defects were repaired in /repo (b3e47ab, 06d724d, 7e6e811); TLC -coverage is unusable on the nested codec operators, action coverage is taken from the printed edges',
+    technique='TLA+ codec + store model, TLC enumeration with edge replay on the real baggage package + TLC trace validation at the real limits',
+)
+CLAIMS['C13'] = dict(
+    text='OtlpModel.tla defines resource/scope keys, Group(batch) and the field-presence vocabulary from the OTLP data model; OtlpGrouping.tla enumerates every batch up to 4 items over equal-but-distinct resources and scopes (incl. schema URLs, empty scope) and field-vector classes with pairwise-distinct markers, and TLC proves Group consistent with the declarative statement (exactly once, one group per key, order kept, sensitivity). For every edge the harness builds real spans / ResourceMetrics / log records, runs the six real OTLP exporters against in-process gRPC and HTTP collectors and the Zipkin exporter against a loopback server, projects the decoded protobuf/JSON back to the abstract vocabulary, and TLC (Trace_OtlpGrouping.tla) compares it with Group(batch) and checks gRPC = HTTP (projection and bytes); seeded random batches with boundary-value classes are validated the same way.',
+    ref='DESIGN.md §4 C13',
+    note='technique boundary: TLC decides grouping / exactly-once / order / field-presence / gRPC=HTTP; fidelity for extreme concrete values is only sampled through the concretization table and the projection functions are trusted Go; three defects repaired in /repo (ef06720, 85abb1b, fcf026a), two listed in known_findings/C13.json (their repair would need edits to the repository\'s own tests)',
+    technique='TLA+ grouping/field-presence model, TLC enumeration with edge replay through the real exporters and loopback collectors + TLC trace validation',
+)
+CLAIMS['C14'] = dict(
+    text='OtlpRetry.tla transcribes retry.RequestFunc (attempt, evaluate, elapsed checks, delay = max(throttle, backoff), wait vs ctx.Done) with the per-protocol retryable sets taken from the statement, a discrete clock, collector outcome sequences, Cancel and Shutdown at any point; TLC exhaustive over outcome sequences <= 4 (5 thorough) x throttles x MaxElapsed x stop points, eight seeded model deviations each violate the contract. TLC behaviours are scripts for in-process HTTP and gRPC collectors driving all six real exporters with real (small) times; collector-side arrival times, payload hashes, returned errors and error-handler calls are recorded and validated by TLC against the total contract monitor (Trace_OtlpRetry.tla); plus directed and seeded random scripts.',
+    ref='DESIGN.md §4 C14',
+    note='real time: lower bounds (gap >= throttle, no attempt past the limit) are checked with zero tolerance on the favourable side of the clock, upper bounds with 1 s tolerance and only believed if repeated; temporary network errors only as client timeouts; Retry-After-as-nanoseconds is listed in known_findings/C14.json (its repair needs edits to the repository\'s tests); otlploghttp shutdown defect repaired (3f36591)',
+    technique='TLA+ transcription of the retry loop + contract monitor; TLC behaviours replayed as collector scripts on the six real exporters; TLC trace validation',
+)
+CLAIMS['C16'] = dict(
+    text='GlobalDelegate.tla is a lock-level model of internal/global (provider.mtx, meter.mtx, registration.unregMu, the once) with installer, creators, recorders and registrars, one action per critical section; TLC exhaustive for a family of configurations (Stuck = deadlock freedom, exactly-once callback delegation, no measurement lost after Set returned, liveness); a NoKnown config makes TLC find the lock-order inversion of the pre-repair code and the Patched variant is proved clean. TLC -simulate behaviours (gate passages) are replayed on the real package without hooks: the installed delegate wraps the real SDK and its methods are natural gates called under the package\'s locks; every scenario runs in a fresh subprocess (once-only global state), is recorded and validated by TLC against the total contract monitor (Trace_GlobalDelegate.tla).',
+    ref='DESIGN.md §4 C16, App. A.4',
+    note='lock acquisitions themselves are not gated (no hooks): replay fidelity is the order of gate passages; a blocked scenario is a violation only when two consecutive stop-the-world goroutine dumps show every unfinished goroutine parked in sync.Mutex.Lock inside internal/global; data races only by a -race rerun in the thorough tier; the deadlock was repaired in /repo (83af4eb)',
+    technique='TLA+ lock-level spec + TLC exhaustive (deadlock, liveness); gate replay of TLC behaviours through natural gates in fresh subprocesses; TLC trace validation against a contract monitor',
+)
+CLAIMS['C20'] = dict(
+    text='ConfigPrecedence.tla: per setting and component a record of sources (option, signal variable, generic variable) each absent / valid_i / ill-formed kind, Resolve = highest-precedence providing source else default, with endpoint/path rules and the documented meaning of special values; TLC enumerates the full cross product for the six OTLP exporters, BSP, log batch processor, span limits, log record limits and sampler (6.5k cases), checks the precedence theorems (Inv, Monotone, SignalsAgree) and prints the set of admissible outcomes per case. The harness replays every case on the real components observing behaviour only (which loopback collector got the request, path, headers, encoding, deadline; batch lengths, overflow, timer; exported spans/records; sampling decisions) and checks membership; seeded random multi-setting configurations with ugly concrete values are validated by TLC (Trace_ConfigPrecedence.tla).',
+    ref='DESIGN.md §4 C20',
+    note='observations are behavioural; watchdog expiry and unobservable settings are inconclusive, never a violation; huge-but-parseable sizes are not exercised; six defects repaired in /repo (58648b0, 45994e6, ec793b1, f619716), the count-limit-0 documentation mismatch (shared with C17) is listed in known_findings/C20.json',
+    technique='TLA+ precedence model with admissible-outcome sets, TLC enumeration with case replay on the real exporters/SDK + TLC trace validation of random configurations',
 )
